@@ -1,11 +1,14 @@
 (* C01 — quota handlers preserve the invariant: DeleteQuota, UpdateQuota (create, max/min change,
    re-parenting, flag change with full rebuild), ResetQuota. *)
 From Coq Require Import List ZArith Bool Lia.
-From Verif Require Import Lib.Vec2 C01.Model C01.Spec C01.Proofs_Base C01.Proofs_Walk C01.Proofs_Delta
+From Verif Require Import Lib.VecN C01.Model C01.Spec C01.Proofs_Base C01.Proofs_Walk C01.Proofs_Delta
   C01.Proofs_PodList C01.Proofs_Sections C01.Proofs_Shape C01.Proofs_CWalk C01.Proofs_Detach
   C01.Proofs_SetMaxMin C01.Proofs_Mid C01.Proofs_Reset.
 Import ListNotations.
 Open Scope Z_scope.
+
+Section WithDim.
+Context {D : Dim}.
 
 Lemma has_children_false sh n : has_children sh n = false <-> forall c, In c sh -> q_parent c <> n.
 Proof.
@@ -122,7 +125,7 @@ Section AppendBlank.
   Proof.
     unfold sh2. rewrite !sumc_snoc.
     assert (E1 : limR R2 b = vzero).
-    { unfold limR, R2, lim. fold n. rewrite fupd_same, Hbmax. reflexivity. }
+    { unfold limR, R2, lim. fold n. rewrite fupd_same, Hbmax. cbn [r_req r0]. clear. vlia. }
     assert (E2 : npR R2 b = vzero) by (unfold npR, R2; fold n; rewrite fupd_same; reflexivity).
     assert (E3 : usedU U2 b = vzero) by (unfold usedU, U2; fold n; rewrite fupd_same; reflexivity).
     assert (E4 : unpU U2 b = vzero) by (unfold unpU, U2; fold n; rewrite fupd_same; reflexivity).
@@ -149,7 +152,7 @@ Lemma cnt_all_snoc sh b P x : cnt x (all_ids (sh ++ [b]) P) = (cnt x (all_ids sh
 Proof. unfold all_ids. rewrite flat_map_app, cnt_app. cbn [flat_map]. rewrite app_nil_r. reflexivity. Qed.
 
 Lemma freq_blank b : q_min b = vzero -> freq b vzero = vzero.
-Proof. intros H. unfold freq. rewrite H. destruct (q_lend b); reflexivity. Qed.
+Proof. intros H. unfold freq. rewrite H. destruct (q_lend b); [reflexivity | clear; vlia]. Qed.
 
 (* ---------- creating a quota ---------- *)
 
@@ -208,14 +211,14 @@ Proof.
       rewrite (sumc_no_children _ _ _ Hnochild) in E1. rewrite (sumc_no_children _ _ _ Hnochild) in E2.
       rewrite (sumc_no_children _ _ _ Hnochild) in E3. rewrite (sumc_no_children _ _ _ Hnochild) in E4.
       constructor; cbn [st_sh st_r st_u st_p]; rewrite ?Hbn.
-      * unfold okA. rewrite Hbn, E1, fupd_same. reflexivity.
-      * unfold okN. rewrite Hbn, E2, fupd_same. reflexivity.
+      * unfold okA. rewrite Hbn, E1, fupd_same. cbn [r_creq r_sreq r0]. rewrite vadd_0_l. reflexivity.
+      * unfold okN. rewrite Hbn, E2, fupd_same. cbn [r_np r_snp r0]. rewrite vadd_0_l. reflexivity.
       * unfold okB. rewrite Hbn, fupd_same. cbn [r_req r_creq r0]. symmetry. apply freq_blank. exact Hbmin.
-      * unfold okU. rewrite Hbn, E3, fupd_same. reflexivity.
-      * unfold okUN. rewrite Hbn, E4, fupd_same. reflexivity.
+      * unfold okU. rewrite Hbn, E3, fupd_same. cbn [u_used u_sused u0]. rewrite vadd_0_l. reflexivity.
+      * unfold okUN. rewrite Hbn, E4, fupd_same. cbn [u_np u_snp u0]. rewrite vadd_0_l. reflexivity.
       * unfold okS. cbn [st_r st_u st_p]. rewrite !fupd_same. cbn. auto.
-      * rewrite fupd_same. reflexivity.
-      * rewrite fupd_same. reflexivity.
+      * rewrite fupd_same. apply nonneg_r_iff. cbn [r0 r_req r_creq r_sreq r_np r_snp]. repeat split; apply vnonneg_zero.
+      * rewrite fupd_same. apply nonneg_u_iff. cbn [u0 u_used u_sused u_np u_snp]. repeat split; apply vnonneg_zero.
       * rewrite fupd_same. constructor.
   - intros x Hx. apply in_app_or in Hx. destruct Hx as [Hx|[<-|[]]].
     + rewrite (HPo x Hx). apply Hquiet. exact Hx.
@@ -389,3 +392,5 @@ Proof.
         destruct (leaf_figures s x HI Hc (not_parent_no_children _ x Hshape Hc Ei)) as (L1 & L2 & L3 & L4). congruence. }
   destruct (reset_inv _ HPR) as [HI' Hsh']. split; [exact HI' | exact Hsh'].
 Qed.
+
+End WithDim.
